@@ -11,11 +11,13 @@ import ScyllaVerif.Proofs.CodecTotal
 import ScyllaVerif.Proofs.CarrierFactor
 import ScyllaVerif.Proofs.CodecDyn
 import ScyllaVerif.Proofs.CodecSpec
+import ScyllaVerif.Proofs.C01TypedRT
+import ScyllaVerif.Model.C01ExternalConv
 
 namespace ScyllaVerif.Props.C01
 open ScyllaVerif.Vint ScyllaVerif.Cql ScyllaVerif.Codec
 open ScyllaVerif.Proofs
-open ScyllaVerif.TypedCarrier
+open ScyllaVerif.TypedCarrier ScyllaVerif.TypedDecode
 
 /-! ### vint / zig-zag (duration cells, length prefix of variable-width vector elements) -/
 
@@ -294,6 +296,48 @@ theorem carrier_factor_spec (c : Carrier) (t : CqlTy) (x : RustVal) (ws : Bool) 
     serCarrier c t x ws buf = .ok (buf ++ s) := by
   rw [carrier_factor c t x ws buf hwt hc, encImpl_of_encSpec_ok t _ ws buf s hs]
 
+/-- **Typed round trip.**  For every typed carrier `c` that has a `DeserializeValue` impl (scalars, `Option`,
+`MaybeEmpty`, `Vec`, set and map types, tuples, arbitrarily nested), every CQL type `t` it type-checks against
+for deserialization (`tcheck`) and is compatible with for serialization (`compat`), and every Rust value `x`
+of that type in the round-trip domain `rtOk` (UTF-8 / ASCII strings, `time` within a day, non-empty varint; no
+`Some(None)`, no null / *empty* vector element — C01-F2 / C01-F9): the carrier's own serializer appends exactly
+the cell the protocol defines for its embedding, and the carrier's own typed deserializer, reading that cell
+(followed by anything), returns `x` itself — `Vec<Option<T>>` with nulls in lists and maps included. -/
+theorem typed_roundtrip (u : Bytes → Bool) (c : Carrier) (t : CqlTy) (x : RustVal) (cell rest buf : Bytes)
+    (hwt : wtVal c x = true) (hc : compat c t = true) (htc : tcheck c t = true) (hrt : rtOk u c t x = true)
+    (hs : encSpec t (embed c x) true = .ok cell) :
+    serCarrier c t x true buf = .ok (buf ++ cell) ∧
+    ∃ o, readCqlBytes (cell ++ rest) = .ok (o, rest) ∧ deserCarrier u c t o = .ok x :=
+  ⟨carrier_factor_spec c t x true buf cell hwt hc hs,
+   TypedRT.item_of_trt u c t x (TypedRT.trt u c t x hwt htc hrt) cell hs rest⟩
+
+/-- The same as one call: `type_check`, split the cell, `deserialize`. -/
+theorem typed_read_roundtrip (u : Bytes → Bool) (c : Carrier) (t : CqlTy) (x : RustVal) (cell : Bytes)
+    (hwt : wtVal c x = true) (htc : tcheck c t = true) (hrt : rtOk u c t x = true)
+    (hs : encSpec t (embed c x) true = .ok cell) : typedRead u c t cell = some (.ok x) := by
+  obtain ⟨o, hr, hd⟩ := TypedRT.item_of_trt u c t x (TypedRT.trt u c t x hwt htc hrt) cell hs []
+  rw [List.append_nil] at hr
+  simp only [typedRead, htc, if_true, hr, hd]
+
+-- non-vacuity: `(Option<i32>, Vec<BTreeMap<String, Option<f64>>>)` with a `None` field and a `None` map value
+set_option maxRecDepth 100000 in
+example :
+    let c : Carrier := .tuple [.opt .i32, .vec (.map .string (.opt .f64))]
+    let t : CqlTy := .tuple [.native .int, .list (.map (.native .text) (.native .double))]
+    let x : RustVal := .tuple [.none, .seq [.pairs [(.string [0x61], .some (.f64 0x3ff0000000000000)), (.string [], .none)]]]
+    wtVal c x = true ∧ compat c t = true ∧ tcheck c t = true ∧ rtOk (fun _ => true) c t x = true ∧
+    (∃ cell, encSpec t (embed c x) true = .ok cell ∧ typedRead (fun _ => true) c t cell = some (.ok x)) := by
+  refine ⟨by rfl, by rfl, by rfl, by rfl, _, rfl, by rfl⟩
+
+/-- Typed decoders have no "zero bytes ⇒ empty" rule: `i32` on the zero-length cell is `ByteLengthMismatch`,
+`MaybeEmpty<i32>` reads `Empty`, `Option<i32>` on a null cell reads `None`, a short tuple does not type-check. -/
+example :
+    deserCarrier (fun _ => true) .i32 (.native .int) (some []) = .error .byteLengthMismatch ∧
+    deserCarrier (fun _ => true) (.maybeEmpty .i32) (.native .int) (some []) = .ok .empty ∧
+    deserCarrier (fun _ => true) (.opt .i32) (.native .int) none = .ok .none ∧
+    tcheck (.tuple [.i32]) (.tuple [.native .int, .native .int]) = false := by
+  refine ⟨by rfl, by rfl, by rfl, by rfl⟩
+
 -- non-vacuity and the two designed differences
 set_option maxRecDepth 100000 in
 example :
@@ -310,6 +354,102 @@ example : serCarrier (.maybeEmpty .i32) (.native .counter) (.value (.i32 5)) tru
     serCarrier (.set .i32) (.vector (.native .int) 1) (.seq [.i32 5]) true [] = .error .notSetOrList ∧
     encImpl (.vector (.native .int) 1) (embed (.set .i32) (.seq [.i32 5])) true [] = .ok [0, 0, 0, 4, 0, 0, 0, 5] := by
   refine ⟨by rfl, by rfl, by rfl, by rfl⟩
+
+/-! ### external carriers: the arithmetic of their conversions (`Model/C01ExternalConv.lean`)
+
+After conversion an external carrier *is* its core carrier (`chrono::NaiveDate`, `time::Date` ↦ `CqlDate`, …),
+for which `typed_roundtrip` holds; what remains is that the conversion pair is a bijection on the external
+type's range. -/
+
+open ScyllaVerif.ExternalConv in
+/-- `time::Date` ↔ `CqlDate`: every date of the crate's range goes to a `u32` and comes back. -/
+theorem time_date_roundtrip (jd : Int) (h0 : timeDateMinJd ≤ jd) (h1 : jd ≤ timeDateMaxJd) :
+    0 ≤ timeDateToCql jd ∧ timeDateToCql jd < 2 ^ 32 ∧ cqlToTimeDate (timeDateToCql jd) = some jd := by
+  unfold timeDateToCql cqlToTimeDate julianDayOffset unixEpochJulianDay timeDateMinJd timeDateMaxJd at *
+  refine ⟨by omega, by omega, ?_⟩
+  have : jd + (2 ^ 31 - 2440588) - (2 ^ 31 - 2440588) = jd := by omega
+  simp only [this]
+  simp [h0, h1]
+
+open ScyllaVerif.ExternalConv in
+/-- `time::Time` ↔ `CqlTime`: every time of day goes to nanoseconds within the day and comes back. -/
+theorem time_time_roundtrip (h m s n : Int) (h0 : 0 ≤ h) (h1 : h < 24) (m0 : 0 ≤ m) (m1 : m < 60) (s0 : 0 ≤ s)
+    (s1 : s < 60) (n0 : 0 ≤ n) (n1 : n < 1000000000) :
+    cqlToTimeTime (timeTimeToCql h m s n) = some (h, m, s, n) := by
+  unfold cqlToTimeTime timeTimeToCql
+  have hx : 0 ≤ (h * 3600 + m * 60 + s) * 1000000000 + n := by omega
+  simp only [Int.tdiv_eq_ediv_of_nonneg hx, Int.tmod_eq_emod_of_nonneg hx]
+  have e1 : ((h * 3600 + m * 60 + s) * 1000000000 + n) / 3600000000000 = h := by omega
+  have e2 : ((h * 3600 + m * 60 + s) * 1000000000 + n) / 60000000000 = h * 60 + m := by omega
+  have e3 : ((h * 3600 + m * 60 + s) * 1000000000 + n) / 1000000000 = h * 3600 + m * 60 + s := by omega
+  have e4 : ((h * 3600 + m * 60 + s) * 1000000000 + n) % 1000000000 = n := by omega
+  rw [e1, e2, e3, e4]
+  have p2 : 0 ≤ h * 60 + m := by omega
+  have p3 : 0 ≤ h * 3600 + m * 60 + s := by omega
+  rw [Int.tmod_eq_emod_of_nonneg p2, Int.tmod_eq_emod_of_nonneg p3]
+  have f2 : (h * 60 + m) % 60 = m := by omega
+  have f3 : (h * 3600 + m * 60 + s) % 60 = s := by omega
+  rw [f2, f3]
+  have g1 : m % 256 = m := by omega
+  have g2 : s % 256 = s := by omega
+  have g3 : n % 4294967296 = n := by omega
+  simp [g1, g2, g3, h0, h1, m1, s1, n1]
+
+open ScyllaVerif.ExternalConv in
+theorem time_time_in_day (h m s n : Int) (h0 : 0 ≤ h) (h1 : h < 24) (m0 : 0 ≤ m) (m1 : m < 60) (s0 : 0 ≤ s)
+    (s1 : s < 60) (n0 : 0 ≤ n) (n1 : n < 1000000000) :
+    0 ≤ timeTimeToCql h m s n ∧ timeTimeToCql h m s n ≤ 86399999999999 := by
+  unfold timeTimeToCql; omega
+
+open ScyllaVerif.ExternalConv in
+/-- `time::OffsetDateTime` ↔ `CqlTimestamp`: milliseconds since the epoch; the way back restores the instant
+truncated to the millisecond (exactly, when the nanoseconds are a whole number of milliseconds). -/
+theorem time_odt_roundtrip (secs nanos : Int)
+    (hr0 : (timeDateMinJd - unixEpochJulianDay) * 86400 ≤ secs)
+    (hr1 : secs < (timeDateMaxJd - unixEpochJulianDay + 1) * 86400) (n0 : 0 ≤ nanos) (n1 : nanos < 1000000000) :
+    cqlToTimeOdt (timeOdtToCql secs nanos) = some (secs, nanos / 1000000 * 1000000) := by
+  unfold cqlToTimeOdt timeOdtToCql
+  have e1 : (secs * 1000 + nanos / 1000000) / 1000 = secs := by omega
+  have e2 : (secs * 1000 + nanos / 1000000) % 1000 = nanos / 1000000 := by omega
+  simp only [e1, e2]
+  simp [hr0, hr1]
+
+open ScyllaVerif.ExternalConv in
+/-- `chrono::NaiveTime` ↔ `CqlTime`: outside a leap second the pair is a bijection; a leap-second fraction in
+the last second of the day is `ValueOverflow`. -/
+theorem chrono_time_roundtrip (secs frac : Int) (s0 : 0 ≤ secs) (s1 : secs < 86400) (f0 : 0 ≤ frac)
+    (f1 : frac < 1000000000) :
+    chronoTimeToCql secs frac = some (secs * 1000000000 + frac) ∧
+    cqlToChronoTime (secs * 1000000000 + frac) = some (secs, frac) ∧
+    (∀ frac' : Int, 1000000000 ≤ frac' → chronoTimeToCql 86399 frac' = none) := by
+  refine ⟨?_, ?_, ?_⟩
+  · unfold chronoTimeToCql
+    have : secs * 1000000000 + frac ≤ 86399999999999 := by omega
+    simp [this]
+  · unfold cqlToChronoTime
+    have hx : 0 ≤ secs * 1000000000 + frac := by omega
+    simp only [Int.tdiv_eq_ediv_of_nonneg hx, Int.tmod_eq_emod_of_nonneg hx]
+    have e1 : (secs * 1000000000 + frac) / 1000000000 = secs := by omega
+    have e2 : (secs * 1000000000 + frac) % 1000000000 = frac := by omega
+    rw [e1, e2]
+    simp [s0, s1, f0]
+  · intro frac' hl
+    unfold chronoTimeToCql
+    simp only [ite_eq_right_iff]
+    intro h; omega
+
+open ScyllaVerif.ExternalConv in
+/-- `chrono::DateTime<Utc>` ↔ `CqlTimestamp` (millisecond precision) and `chrono::NaiveDate` ↔ `CqlDate`. -/
+theorem chrono_dt_date_roundtrip (secs millis days : Int) (m0 : 0 ≤ millis) (m1 : millis < 1000) :
+    cqlToChronoDt (chronoDtToCql secs millis) = (secs, millis) ∧ chronoDateToCql days - 2 ^ 31 = days := by
+  unfold cqlToChronoDt chronoDtToCql chronoDateToCql
+  refine ⟨?_, by omega⟩
+  have e1 : (secs * 1000 + millis) / 1000 = secs := by omega
+  have e2 : (secs * 1000 + millis) % 1000 = millis := by omega
+  rw [e1, e2]
+
+example : ExternalConv.timeTimeToCql 23 59 59 999999999 = 86399999999999 ∧
+    ExternalConv.timeDateToCql 2440588 = 2 ^ 31 ∧ ExternalConv.timeOdtToCql (-1) 999000000 = -1 := by decide
 
 /-! ### size overflow (error branch) -/
 
@@ -333,6 +473,18 @@ theorem size_overflow_blob (b buf : Bytes) :
       (if b.length > i32Max then .error .sizeOverflow else .ok (buf ++ be32 b.length ++ b)) := by
   rw [encImpl]
   simp [viewOf, encScalarImpl, setValue]
+
+/-- A collection of more than `i32::MAX` elements is rejected with `TooManyElements` before anything is
+written — lists, sets and maps, whatever the element type, writer mode and buffer. -/
+theorem too_many_elements (elt kt vt : CqlTy) (vs : List CqlVal) (kvs : List (CqlVal × CqlVal)) (ws : Bool)
+    (buf : Bytes) :
+    (vs.length > i32Max → encImpl (.list elt) (.list vs) ws buf = .error .tooManyElements ∧
+      encImpl (.set elt) (.set vs) ws buf = .error .tooManyElements) ∧
+    (kvs.length > i32Max → encImpl (.map kt vt) (.map kvs) ws buf = .error .tooManyElements) := by
+  refine ⟨fun h => ⟨?_, ?_⟩, fun h => ?_⟩ <;> (rw [encImpl]; simp [viewOf, h])
+
+example : encImpl (.list (.native .int)) (.list [.unset, .unset]) true [] =
+    .ok [0, 0, 0, 0xc, 0, 0, 0, 2, 0xff, 0xff, 0xff, 0xfe, 0xff, 0xff, 0xff, 0xfe] := by rfl
 
 example : setValue true [1, 2, 3] [9] = .ok [9, 0, 0, 0, 3, 1, 2, 3] := by rfl
 
